@@ -26,7 +26,7 @@ Qed.
 
 (* ---------------- witness 1: a per-row bound parameter outside VALUES ---------------- *)
 Definition w1_flags := mkFlags false true true true false false false false.
-Definition w1_cfg := mkConfig w1_flags 2 32700 3 2 true true 1 false true false.
+Definition w1_cfg := mkConfig w1_flags 2 32700 3 2 2 true true 1 false true false.
 Definition w1_mask := [true; true; false].
 Definition w1_rowspec : list (list Z) := [[1; 0]; [2; 1]; [1; 0]].
 Definition w1_ps : list param := [(0%nat, [1; 100; 0]); (1%nat, [2; 101; 10]); (2%nat, [3; 102; 20])].
@@ -44,7 +44,7 @@ Proof. cbn. repeat constructor; cbn; intuition discriminate. Qed.
 
 (* ---------------- witness 2: sentinel columns without client-side values ---------------- *)
 Definition w2_flags := mkFlags false true true true false false false false.
-Definition w2_cfg := mkConfig w2_flags 1000 32700 1 1 true true 1 false false false.
+Definition w2_cfg := mkConfig w2_flags 1000 32700 1 1 1 true true 1 false false false.
 Definition w2_rowspec : list (list Z) := [[0]; [1; 0]; [0]].
 Definition w2_ps : list param := [(0%nat, [100]); (1%nat, [101]); (2%nat, [102])].
 Definition w2_run := execute list_eqb (sent_of_param []) (sent_of_row 1) sort_key (ext_of [true])
